@@ -9,6 +9,7 @@ import (
 	"errors"
 	"fmt"
 	stdnet "net"
+	"sync"
 
 	"github.com/containerd/ttrpc"
 
@@ -23,6 +24,7 @@ type envCall struct {
 	arg    interface{}
 	locked bool
 	ctxs   int
+	timeout int64 // duration of the timeout context the call was made under (-1: none)
 }
 
 type envWorld struct {
@@ -30,6 +32,17 @@ type envWorld struct {
 	trace  []envCall
 	inside int
 	maxIn  int
+	// concurrency harnesses: when set, every plugin handler contains a scheduling point (yield) and the
+	// world tracks whether a handler / the runtime's update callback is running
+	yield      *sync.Mutex
+	inCallback bool
+	overlap    bool // a plugin handler and the update callback were running at the same time
+}
+
+// pause is a scheduling point: another goroutine may run here.
+func (w *envWorld) pause() {
+	w.yield.Lock()
+	w.yield.Unlock()
 }
 
 // error classes an environment plugin call may return (A-TTRPC, DESIGN Appendix D)
@@ -78,12 +91,26 @@ type envPlugin struct {
 	syncFn func(*SynchronizeRequest) (*SynchronizeResponse, error)
 }
 
-func (p *envPlugin) record(method string, ev api.Event, arg interface{}) {
-	c := envCall{plugin: p.id, method: method, event: ev, arg: arg, ctxs: ctxTimeoutCount()}
+func (p *envPlugin) record(ctx context.Context, method string, ev api.Event, arg interface{}) {
+	c := envCall{plugin: p.id, method: method, event: ev, arg: arg, ctxs: ctxTimeoutCount(), timeout: ctxTimeoutNs(ctx)}
 	if p.w.r != nil {
 		c.locked = heldByMe(&p.w.r.Mutex)
 	}
 	p.w.trace = append(p.w.trace, c)
+	if p.w.yield != nil {
+		p.w.inside++
+		if p.w.inside > p.w.maxIn {
+			p.w.maxIn = p.w.inside
+		}
+		if p.w.inCallback {
+			p.w.overlap = true
+		}
+		p.w.pause()
+		if p.w.inCallback {
+			p.w.overlap = true
+		}
+		p.w.inside--
+	}
 }
 
 func (p *envPlugin) err() error {
@@ -97,7 +124,7 @@ func (p *envPlugin) err() error {
 }
 
 func (p *envPlugin) Configure(ctx context.Context, req *ConfigureRequest) (*ConfigureResponse, error) {
-	p.record("Configure", 0, req)
+	p.record(ctx, "Configure", 0, req)
 	if e := p.err(); e != nil {
 		return nil, e
 	}
@@ -105,7 +132,7 @@ func (p *envPlugin) Configure(ctx context.Context, req *ConfigureRequest) (*Conf
 }
 
 func (p *envPlugin) Synchronize(ctx context.Context, req *SynchronizeRequest) (*SynchronizeResponse, error) {
-	p.record("Synchronize", 0, req)
+	p.record(ctx, "Synchronize", 0, req)
 	if p.syncFn != nil {
 		return p.syncFn(req)
 	}
@@ -116,12 +143,12 @@ func (p *envPlugin) Synchronize(ctx context.Context, req *SynchronizeRequest) (*
 }
 
 func (p *envPlugin) Shutdown(ctx context.Context, req *api.Empty) (*api.Empty, error) {
-	p.record("Shutdown", 0, req)
+	p.record(ctx, "Shutdown", 0, req)
 	return &api.Empty{}, nil
 }
 
 func (p *envPlugin) CreateContainer(ctx context.Context, req *CreateContainerRequest) (*CreateContainerResponse, error) {
-	p.record("CreateContainer", api.Event_CREATE_CONTAINER, req)
+	p.record(ctx, "CreateContainer", api.Event_CREATE_CONTAINER, req)
 	if e := p.err(); e != nil {
 		return nil, e
 	}
@@ -129,7 +156,7 @@ func (p *envPlugin) CreateContainer(ctx context.Context, req *CreateContainerReq
 }
 
 func (p *envPlugin) UpdateContainer(ctx context.Context, req *UpdateContainerRequest) (*UpdateContainerResponse, error) {
-	p.record("UpdateContainer", api.Event_UPDATE_CONTAINER, req)
+	p.record(ctx, "UpdateContainer", api.Event_UPDATE_CONTAINER, req)
 	if e := p.err(); e != nil {
 		return nil, e
 	}
@@ -137,7 +164,7 @@ func (p *envPlugin) UpdateContainer(ctx context.Context, req *UpdateContainerReq
 }
 
 func (p *envPlugin) StopContainer(ctx context.Context, req *StopContainerRequest) (*StopContainerResponse, error) {
-	p.record("StopContainer", api.Event_STOP_CONTAINER, req)
+	p.record(ctx, "StopContainer", api.Event_STOP_CONTAINER, req)
 	if e := p.err(); e != nil {
 		return nil, e
 	}
@@ -145,7 +172,7 @@ func (p *envPlugin) StopContainer(ctx context.Context, req *StopContainerRequest
 }
 
 func (p *envPlugin) UpdatePodSandbox(ctx context.Context, req *UpdatePodSandboxRequest) (*UpdatePodSandboxResponse, error) {
-	p.record("UpdatePodSandbox", api.Event_UPDATE_POD_SANDBOX, req)
+	p.record(ctx, "UpdatePodSandbox", api.Event_UPDATE_POD_SANDBOX, req)
 	if e := p.err(); e != nil {
 		return nil, e
 	}
@@ -153,7 +180,7 @@ func (p *envPlugin) UpdatePodSandbox(ctx context.Context, req *UpdatePodSandboxR
 }
 
 func (p *envPlugin) StateChange(ctx context.Context, evt *StateChangeEvent) (*api.Empty, error) {
-	p.record("StateChange", evt.Event, evt)
+	p.record(ctx, "StateChange", evt.Event, evt)
 	if e := p.err(); e != nil {
 		return nil, e
 	}
